@@ -1,7 +1,6 @@
 package main
 
 import (
-	"sort"
 	"unsafe"
 
 	"pipelined.dev/signal"
@@ -113,57 +112,37 @@ func drawShareProgram(prog *simrt.Stream, b Bounds) *shareProgram {
 	}
 	p.scenario = prog.Draw(3)
 	p.fillSeed = uint64(prog.Draw(1 << 30))
-	var n int
-	switch prog.Draw(3) {
-	case 0:
-		n = 2
-	case 1:
-		n = 2 + prog.Draw(4)
-	default:
-		n = 2 + prog.Draw(15)
-	}
-	// roles
-	roles := make([]int, n)
-	for i := range roles {
+	// Tasks and their operations are nested units, each preceded by the draw
+	// that decides whether it exists (0 = stop). Frame ranges are handed out
+	// consecutively: a writer owns its segment; in mixed runs a reader is
+	// confined to a segment no writer owns (its own, or an earlier read-only one).
+	contT := []int{2, 3, 6, 16}[prog.Draw(4)]
+	contO := []int{2, 4, 12}[prog.Draw(3)]
+	at := 0
+	var roSegs [][2]int
+	for ti := 0; ti < 16; ti++ {
+		prog.Begin()
+		if ti >= 2 && !prog.More(contT) {
+			prog.End()
+			break
+		}
+		t := shareTask{}
 		switch p.scenario {
 		case 0:
-			roles[i] = roleReader
+			t.role = roleReader
 		case 1:
-			roles[i] = roleWriter
+			t.role = roleWriter
 		default:
-			roles[i] = prog.Draw(2)
-		}
-	}
-	if p.scenario == 2 { // a mixed run has at least one of each
-		roles[0], roles[1] = roleReader, roleWriter
-	}
-	// Partition [0,frames) into consecutive segments by seeded cut points;
-	// writers get pairwise disjoint segments; in mixed runs readers are
-	// confined to segments no writer owns.
-	nseg := n
-	if p.scenario == 0 {
-		nseg = 1
-	}
-	cuts := make([]int, 0, nseg+1)
-	cuts = append(cuts, 0)
-	for i := 1; i < nseg; i++ {
-		cuts = append(cuts, prog.Draw(p.frames+1))
-	}
-	cuts = append(cuts, p.frames)
-	sort.Ints(cuts)
-	var roSegs [][2]int
-	if p.scenario == 2 {
-		for i := 0; i < n; i++ {
-			if roles[i] == roleReader {
-				roSegs = append(roSegs, [2]int{cuts[i], cuts[i+1]})
+			switch ti {
+			case 0:
+				t.role = roleReader
+			case 1:
+				t.role = roleWriter
+			default:
+				t.role = prog.Draw(2)
 			}
 		}
-	}
-	nOps := 1 + prog.Draw(12)
-	for i := 0; i < n; i++ {
-		t := shareTask{role: roles[i]}
-		switch {
-		case p.scenario == 0:
+		if p.scenario == 0 {
 			t.whole = prog.Draw(3) != 2
 			t.start, t.end = 0, p.frames
 			if !t.whole {
@@ -173,22 +152,38 @@ func drawShareProgram(prog *simrt.Stream, b Bounds) *shareProgram {
 				}
 				t.start, t.end = x, y
 			}
-		case roles[i] == roleWriter:
-			t.start, t.end = cuts[i], cuts[i+1]
-		default:
+		} else if t.role == roleReader && len(roSegs) > 0 && prog.Draw(2) == 1 {
 			seg := roSegs[prog.Draw(len(roSegs))] // readers may share a read-only segment
 			t.start, t.end = seg[0], seg[1]
+		} else {
+			w := prog.Draw(p.frames - at + 1)
+			if prog.Draw(2) == 1 {
+				w %= 4 // narrow ranges: neighbours inside one machine word
+			}
+			t.start, t.end = at, at+w
+			at += w
+			if t.role == roleReader {
+				roSegs = append(roSegs, [2]int{t.start, t.end})
+			}
 		}
-		for k := 0; k < nOps; k++ {
-			op := shareOp{a: uint64(prog.Draw(1 << 16)), b: uint64(prog.Draw(1 << 16)), c: uint64(prog.Draw(1 << 16))}
+		for k := 0; k < 12; k++ {
+			prog.Begin()
+			if k >= 1 && !prog.More(contO) {
+				prog.End()
+				break
+			}
+			op := shareOp{}
 			if t.role == roleReader {
 				op.kind = prog.Draw(numReaderOps)
 			} else {
 				op.kind = prog.Draw(numWriterOps)
 			}
+			op.a, op.b, op.c = uint64(prog.Draw(1<<16)), uint64(prog.Draw(1<<16)), uint64(prog.Draw(1<<16))
 			t.ops = append(t.ops, op)
+			prog.End()
 		}
 		p.tasks = append(p.tasks, t)
+		prog.End()
 	}
 	return p
 }
@@ -434,7 +429,7 @@ func (h *H[T]) C19(rc *runCtx) *Violation {
 	rc.tally("scenario", scen)
 	rc.tally("strategy", simrt.StrategyNames[sim.Strategy])
 	rc.tally("tasks", spA("%d", len(p.tasks)))
-	rc.cfg = spA("C=%d frames=%d extracap=%d window=%v(start %d of %d) scenario=%s R=%d W=%d ops/task=%d strategy=%s stickyP=%d innerG=%d",
+	rc.cfg = spA("C=%d frames=%d extracap=%d window=%v(start %d of %d) scenario=%s R=%d W=%d ops(task0)=%d strategy=%s stickyP=%d innerG=%d",
 		p.c, p.frames, p.extraCap, p.window, p.winStart, p.bigFrames, scen, nr, nw, len(p.tasks[0].ops), simrt.StrategyNames[sim.Strategy], sim.StickyP, sim.InnerG)
 	sim.Tracef("config: T=%s %s", h.name, rc.cfg)
 	for ti, t := range p.tasks {
